@@ -34,6 +34,16 @@ Theorem C05_concurrent_copies_one_accept :
     (length (downs (snd (interleave apps sched fuel st (join_prog E D cfg f rx1 an1 na1) (join_prog E D cfg f rx2 an2 na2) []))) <= 1)%nat.
 Proof. exact concurrent_join_copies_answered_at_most_once. Qed.
 
+(* ... and the same for ANY number of handlers (two, three, ...) working on copies of the request, under
+   every schedule: at most one join-accept leaves. *)
+Theorem C05_concurrent_copies_any_number :
+  forall (E D : list N -> list N -> list N) apps cfg f, cfg_disable_nonce_check cfg = false ->
+  forall (copies : list (rxpacket * list N * N)) sched fuel st,
+    (length (downs (snd (interleaveN apps sched fuel st
+                           (map (fun c => join_prog E D cfg f (fst (fst c)) (snd (fst c)) (snd c)) copies) []))) <= 1)%nat.
+Proof. exact concurrent_join_copies_any_number. Qed.
+
 Print Assumptions C05_once.
 Print Assumptions C05_agree.
 Print Assumptions C05_concurrent_copies_one_accept.
+Print Assumptions C05_concurrent_copies_any_number.
